@@ -22,7 +22,9 @@ def concretize(model, v, st, depth=0):
     if isinstance(v, SBytes):
         r = model.eval(v.t, model_completion=True)
         b = seq_to_py(r)
-        return b if b is not None else str(r)
+        if b is None:
+            return str(r)
+        return memoryview(b) if v.kind == 'memoryview' else bytearray(b) if v.kind == 'bytearray' else b
     if isinstance(v, SOpaque):
         return '<opaque %s>' % model.eval(v.t, model_completion=True)
     if isinstance(v, SStr):
@@ -57,8 +59,12 @@ def concretize(model, v, st, depth=0):
 
 
 def jsonable(x):
-    if isinstance(x, (bytes, bytearray)):
-        return {'__bytes__': bytes(x).hex()}
+    if isinstance(x, bytearray):
+        return {'__bytearray__': bytes(x).hex()}
+    if isinstance(x, memoryview):
+        return {'__memoryview__': bytes(x).hex()}
+    if isinstance(x, bytes):
+        return {'__bytes__': x.hex()}
     if isinstance(x, dict):
         return {str(k): jsonable(v) for k, v in x.items()}
     if isinstance(x, (list, tuple)):
